@@ -281,6 +281,29 @@ impl Model {
             }
         }
 
+        // -- introspection ----------------------------------------------------------------------
+        if let Some(si) = &snap.introspection {
+            let m: BTreeMap<_, _> = self
+                .intro
+                .iter()
+                .map(|(k, e)| (*k, (e.conns.clone(), e.cached.clone(), e.queried, e.pending.clone())))
+                .collect();
+            let s: BTreeMap<_, _> = si
+                .iter()
+                .map(|(k, e)| (*k, (e.conns.clone(), e.introspection.clone(), e.queried, e.pending.clone())))
+                .collect();
+            if m != s || self.intro_queries != snap.query_introspection {
+                out.push(Violation::new(
+                    "state.introspection",
+                    &[Prop::C11, Prop::C09],
+                    format!(
+                        "introspection database: model {m:?} queries {:?}; broker {s:?} queries {:?}",
+                        self.intro_queries, snap.query_introspection
+                    ),
+                ));
+            }
+        }
+
         // -- per-connection mirrors -------------------------------------------------------------
         for (c, sc) in &snap.conns {
             let mut exp = self.expected_conn(*c);
@@ -320,6 +343,15 @@ impl Model {
                 ("num_channels", self.channels.len(), g.num_channels),
                 ("num_bus_listeners", self.listeners.len(), g.num_bus_listeners),
             ];
+            if let Some(n) = g.num_introspections {
+                if n != self.intro.len() {
+                    out.push(Violation::new(
+                        "gauge.num_introspections",
+                        &[Prop::C09],
+                        format!("statistics gauge num_introspections = {n}, true count = {}", self.intro.len()),
+                    ));
+                }
+            }
             for (name, m, s) in exp {
                 if m != s {
                     out.push(Violation::new(
@@ -353,6 +385,8 @@ impl Model {
             && self.calls.is_empty()
             && self.channels.is_empty()
             && self.listeners.is_empty()
+            && self.intro.is_empty()
+            && self.intro_queries.is_empty()
     }
 }
 
